@@ -405,10 +405,11 @@ func check(args []string) int {
 		viol         map[string]*runOut // first run per rule
 		violCount    map[string]int
 		knownHit     map[string]int
+		knownEntry   map[string]int
 		unattributed []string
 	}
 	a := &agg{traces: map[string]bool{}, nontrivial: map[string]bool{}, states: map[string]bool{}, probes: map[string]int{}, faults: map[string]int{},
-		failstops: map[string]int{}, deaths: map[string]int{}, viol: map[string]*runOut{}, violCount: map[string]int{}, knownHit: map[string]int{}, harnessMsgs: map[string]int{}}
+		failstops: map[string]int{}, deaths: map[string]int{}, viol: map[string]*runOut{}, violCount: map[string]int{}, knownHit: map[string]int{}, knownEntry: map[string]int{}, harnessMsgs: map[string]int{}}
 
 	jobs := make(chan int)
 	var wg sync.WaitGroup
@@ -466,8 +467,9 @@ func check(args []string) int {
 				for vi := range o.res.Violations {
 					v := &o.res.Violations[vi]
 					a.violCount[v.Rule]++
-					if known.match(v) != nil {
+					if kf := known.match(v); kf != nil {
 						a.knownHit[v.Rule]++
+						a.knownEntry[kf.Rule+" | "+kf.SigRe]++
 						continue
 					}
 					if _, seen := a.viol[v.Rule]; !seen {
@@ -554,17 +556,10 @@ func check(args []string) int {
 		reported = append(reported, map[string]any{"rule": rule, "replay": path, "detail": v.Detail, "runs_hitting": a.violCount[rule]})
 		exit = 1
 	}
-	var krules []string
-	for r := range a.knownHit {
-		krules = append(krules, r)
-	}
-	sort.Strings(krules)
-	for _, r := range krules {
-		for _, f := range known.Findings {
-			if f.Rule == r {
-				fmt.Printf("KNOWN-FINDING: property=%s %s (rule %s, %d runs)\n", *prop, f.What, r, a.knownHit[r])
-				break
-			}
+	// one KNOWN-FINDING line per listed entry (rule + history signature) that occurred
+	for _, f := range known.Findings {
+		if n := a.knownEntry[f.Rule+" | "+f.SigRe]; n > 0 && f.Property == *prop {
+			fmt.Printf("KNOWN-FINDING: property=%s %s (rule %s, signature %s, %d occurrences)\n", *prop, f.What, f.Rule, f.SigRe, n)
 		}
 	}
 	wall := time.Since(t0).Seconds()
@@ -611,6 +606,7 @@ func check(args []string) int {
 		"harness_trouble":        a.harness,
 		"nonreproducible":        nonrepro,
 		"known_findings_hit":     a.knownHit,
+		"known_entries_hit":      a.knownEntry,
 		"violations_reported":    reported,
 		"rule_hit_counts":        a.violCount,
 		"components": componentsOf(*prop),
